@@ -99,6 +99,12 @@ func genC09(r *vh.Runner) {
 			c.Bubble(func() { isolationRun(r, c, i) })
 		})
 	}
+	nl := r.Pick(3, 60)
+	for i := 0; i < nl; i++ {
+		r.Case(fmt.Sprintf("late-frame-far-ahead/%d", i), map[string]any{"case": i}, func(c *vh.Case) {
+			c.Bubble(func() { lateFarFrameRun(r, c, i) })
+		})
+	}
 	ne := r.Pick(4, 40)
 	for i := 0; i < ne; i++ {
 		r.Case(fmt.Sprintf("id-exhaustion/%d", i), map[string]any{"case": i}, func(c *vh.Case) {
@@ -605,6 +611,144 @@ func (x *c09) traffic(inst *instance) {
 
 // exhaustionRun: open tubes until the id space is exhausted on both sides and
 // kinds; ids must stay distinct, the 129th must fail with ErrOutOfTubes.
+// lateFarFrameRun: a long-lived reliable tube sends well over a thousand
+// frames; copies of some of its late data frames (numbers far beyond the
+// 1000-frame receive window of a fresh tube) stay in the network. After both
+// ends have closed and the id quarantine is over, a new reliable tube takes
+// the same id, the old copies arrive, and the new tube then carries a stream
+// long enough to reach those frame numbers. Unlike a stale frame whose number
+// falls inside the successor's window (known finding: frames carry no tube
+// incarnation), these frames are outside everything the successor may accept:
+// its stream must arrive unaltered.
+func lateFarFrameRun(r *vh.Runner, c *vh.Case, i int) {
+	rng := vh.NewRand(r.Seed, "c09-far", i)
+	mp := newMuxPair(2 * time.Hour)
+	defer mp.stop()
+	acc := make(chan tubes.Tube, 8)
+	go func() {
+		for {
+			t, err := mp.b.Accept()
+			if err != nil {
+				return
+			}
+			acc <- t
+		}
+	}()
+	var mu sync.Mutex
+	var held [][]byte
+	capture := true
+	lo := uint32(1100 + rng.Intn(200))
+	hi := lo + uint32(50+rng.Intn(300))
+	mp.net.SetPolicy(func(dir, seq int, data []byte) []msgnet.Delivery {
+		h := parseHdr(data)
+		mu.Lock()
+		if capture && dir == 0 && h.ok && !h.initFrame && h.rel && h.dataLen > 0 && h.frameNo >= lo && h.frameNo < hi && len(held) < 400 {
+			held = append(held, append([]byte(nil), data...))
+		}
+		mu.Unlock()
+		return []msgnet.Delivery{{Data: data}}
+	})
+	chunk := 4 + rng.Intn(24)
+	run := func(gen int, frames int) (byte, bool) {
+		a, err := mp.a.CreateReliableTube(7)
+		if err != nil {
+			c.Inconclusive("create: " + err.Error())
+			return 0, false
+		}
+		var b tubes.Tube
+		select {
+		case b = <-acc:
+		case <-time.After(10 * time.Second):
+			c.Inconclusive("accept timed out")
+			return 0, false
+		}
+		if gen == 2 {
+			// the old copies arrive now, before the successor has carried anything
+			mu.Lock()
+			for _, f := range held {
+				mp.net.Inject(0, f, time.Duration(rng.Intn(3))*time.Millisecond)
+			}
+			mu.Unlock()
+			bub.Settle(20 * time.Millisecond)
+		}
+		key := streamKey(r.Seed^uint64(i)<<20, gen, 0)
+		total := int64(frames * chunk)
+		wdone := bub.Go(func() {
+			buf := make([]byte, chunk)
+			for off := int64(0); off < total; off += int64(chunk) {
+				fill(key, off, buf)
+				if _, err := a.Write(buf); err != nil {
+					return
+				}
+			}
+		})
+		got := int64(0)
+		bad := ""
+		rdone := bub.Go(func() {
+			buf := make([]byte, 4096)
+			for got < total {
+				n, err := b.Read(buf)
+				if n > 0 {
+					if bad == "" && !matches(key, got, buf[:n]) {
+						bad = fmt.Sprintf("bytes at offset %d differ from what generation %d wrote", got, gen)
+						if matches(streamKey(r.Seed^uint64(i)<<20, 1, 0), int64(int(lo-1)*chunk), buf[:min(n, chunk)]) || gen == 2 {
+							bad += " (generation 1 data is in flight)"
+						}
+					}
+					got += int64(n)
+				}
+				if err != nil {
+					return
+				}
+			}
+		})
+		okW := bub.Within(wdone, 10*time.Minute)
+		okR := bub.Within(rdone, 10*time.Minute)
+		r.Count("evaluations", 1)
+		if gen == 2 {
+			detail := map[string]any{"id": a.GetID(), "stale_frames_delivered": len(held), "stale_frame_numbers": []uint32{lo, hi - 1}, "successor_frames": frames,
+				"bytes_read": got, "bytes_expected": total, "writer_done": okW, "reader_done": okR, "mismatch": bad}
+			if bad != "" {
+				c.Violate("C09:successor-stream-altered:stale-frames-beyond-its-receive-window", detail)
+			} else if !okW || !okR || got != total {
+				c.Violate("C09:successor-stream-stalls:stale-frames-beyond-its-receive-window", detail)
+			}
+		} else if !okW || !okR || got != total || bad != "" {
+			c.Inconclusive(fmt.Sprintf("predecessor stream did not complete: %d of %d, %s", got, total, bad))
+			return 0, false
+		}
+		id := a.GetID()
+		cdone := bub.Go(func() { a.Close(); b.Close(); a.WaitForClose(); b.WaitForClose() })
+		if !bub.Within(cdone, time.Minute) {
+			c.Inconclusive("close did not complete")
+			return id, false
+		}
+		return id, !c.Violated()
+	}
+	id1, ok := run(1, int(hi)+50+rng.Intn(200))
+	if !ok {
+		return
+	}
+	mu.Lock()
+	capture = false
+	nheld := len(held)
+	mu.Unlock()
+	if nheld == 0 {
+		c.Inconclusive("no late frames captured")
+		return
+	}
+	time.Sleep(5*time.Second + time.Duration(rng.Intn(5000))*time.Millisecond) // id quarantine (4 x RTT) is over
+	id2, ok := run(2, int(hi)+100+rng.Intn(400))
+	if id2 != id1 {
+		r.Count("successor_took_another_id", 1)
+		return
+	}
+	if ok {
+		r.Count("stale_far_frames_delivered_to_successor", int64(nheld))
+		r.Nontrivial(fmt.Sprintf("far|%d|%d|%d", i, lo, chunk))
+	}
+}
+
 func exhaustionRun(r *vh.Runner, c *vh.Case, i int) {
 	rng := vh.NewRand(r.Seed, "c09-exh", i)
 	mp := newMuxPair(2 * time.Hour)
